@@ -102,6 +102,22 @@ CHECKS.update({
             "DESIGN.md section 3 C12"),
 })
 
+CHECKS.update({
+    "C14": ("Bounded symbolic execution of the credential plumbing: CachingAuthProvider/KeyedCachingAuthProvider.get with a symbolic "
+            "non-decreasing clock, symbolic cache keys and a lock stub through which a concurrent worker may refresh the same key (fetches of one "
+            "key must be >= interval apart); prepare_headers with symbolic header-name spelling; get_strategy_kwargs / Override.for_operation "
+            "with symbolic override sets; the override/auth block of add_coverage; the stateful before_call override hook run through the real "
+            "state-machine loop. Real thread interleavings beyond the modelled one and real requests are outside.",
+            "CrossHair symbolic execution (z3) of CachingAuthProvider.get, prepare_headers, get_strategy_kwargs, add_coverage, execute_state_machine_loop with symbolic clock/keys/lock hook/overrides",
+            "DESIGN.md section 3 C14"),
+    "C15": ("Bounded symbolic execution of sanitize_value / sanitize_url / configure / extend and of Case.as_curl_command with a symbolic "
+            "secret drawn from an alphabet disjoint from all constant text: sensitive names (19 spellings incl. markers) are redacted at any "
+            "nesting depth, userinfo containing '@'/':' is removed as a whole, runtime customisation changes exactly the configured set, the "
+            "sanitize switch is honoured. Console/JUnit/HAR writers end to end are outside.",
+            "CrossHair symbolic execution (z3) of sanitize_value/sanitize_url/configure/extend/prepare_request/as_curl_command with a symbolic secret",
+            "DESIGN.md section 3 C15"),
+})
+
 NOT_APPLICABLE = {
     "C13": "Seed reproducibility is a 2-run hyper-property of the whole program through Hypothesis' engine, its PRNG, identity-keyed caches and "
            "set iteration order; none of it can be made a symbolic variable of a bounded encoding, and the only solver-shaped fragment "
